@@ -5,6 +5,7 @@
   tool/mutate.py                     run every selftest/mutants/*.json
   tool/mutate.py C11                 only those of one property
   tool/mutate.py --edit C11 FILE OLD NEW    ad-hoc mutant (development aid)
+selftest/neutral/*.json are behaviour-preserving variants ("expect": "PASS"): the check must exit 0 on them.
 Mutant file: {"property": "C11", "expect": "C11.R1", "edits": [{"file": "src/client/X.cpp", "old": "...", "new": "..."}], "why": "..."}
 """
 import glob
@@ -64,6 +65,13 @@ def run_mutant(m, verbose=False):
             return False, 'STALE: ' + err
         rc, out = run_check(m['property'], root, m.get('tier', 'quick'))
         want = m.get('expect', m['property'])
+        if want == 'PASS':
+            # behaviour-preserving variant: the check must stay silent
+            if verbose:
+                print(out)
+            if rc == 0:
+                return True, 'silent (exit 0)'
+            return False, 'exit=%d on a behaviour-preserving variant: %s' % (rc, ' | '.join(l.strip()[:160] for l in out.splitlines() if l.startswith('  ') or 'BROKEN' in l)[:600])
         hit = [l for l in out.splitlines() if l.startswith('  ') and l.strip().startswith(want) and ' at ' in l]
         if verbose:
             print(out)
@@ -82,12 +90,13 @@ def main():
         print('CAUGHT' if ok else 'MISSED', msg)
         return 0 if ok else 1
     flt = args[0] if args else ''
-    files = sorted(glob.glob(os.path.join(HERE, 'selftest', 'mutants', flt + '*.json')))
+    files = sorted(glob.glob(os.path.join(HERE, 'selftest', 'mutants', flt + '*.json')) + glob.glob(os.path.join(HERE, 'selftest', 'neutral', flt + '*.json')))
     bad = 0
     for f in files:
         m = json.load(open(f))
         ok, msg = run_mutant(m)
-        print('%-7s %-40s %s' % ('CAUGHT' if ok else 'MISSED', os.path.basename(f), msg))
+        neutral = m.get('expect') == 'PASS'
+        print('%-7s %-40s %s' % (('SILENT' if ok else 'ALARM') if neutral else ('CAUGHT' if ok else 'MISSED'), os.path.basename(f), msg))
         if not ok:
             bad += 1
     print('%d mutants, %d missed' % (len(files), bad))
